@@ -232,16 +232,19 @@ def run(ctx, replay=None, selftest=False):
     rf = D.emit_partitioned(ctx, 'fft', 'fft', F['Ns'], [1], F['Qs'], [(0, 1)])
     c, d = fs_cfg(S, emit=True)
     rs = ctx.tlc('FreeSpace', c, defs=d, name='freespace:emit', coverage=False)
-    precs = (64,) if ctx.tier == 'quick' else (64, 32)
+    # precision is a configuration AND a history: single precision first, so that anything built under it and wrongly
+    # kept (a memoised transfer function, a cached basis) is exposed by the double-precision pass that follows
     from prysm.conf import config
     try:
-        for p in precs:
+        for p in ((64,) if ctx.tier == 'quick' else (32, 64)):
             config.precision = p
             for rec in rb.records:
                 replay_band(rec, ctx, np, p)
             for rec in rf:
                 replay_fft(rec, ctx, np, p)
-            for rec in rs.records:
+        for rec in rs.records:
+            for p in (32, 64):          # back to back, so that even a small memo still holds the single-precision result
+                config.precision = p
                 replay_fs(rec, ctx, np, p)
     finally:
         config.precision = 64
@@ -259,6 +262,6 @@ def run(ctx, replay=None, selftest=False):
     ctx.sample({'kind': 'band', 'row': rb.records[0]['row'], 'col': rb.records[0]['col']})
     ctx.sample({'kind': 'freespace', 'shape': rs.records[-1]['shape'], 'lam': rs.records[-1]['lam'], 'dx': rs.records[-1]['dx'],
                 'z1': rs.records[-1]['z1'], 'z2': rs.records[-1]['z2'], 'phi1': rs.records[-1]['phi1'][:2]})
-    ctx.bounds = {'band': {k: list(v) for k, v in B.items()}, 'fft': {k: list(v) for k, v in F.items()}, 'freespace': S, 'precisions': list(precs)}
+    ctx.bounds = {'band': {k: list(v) for k, v in B.items()}, 'fft': {k: list(v) for k, v in F.items()}, 'freespace': S, 'precisions': [32, 64]}
     ctx.assumptions += ['Gaussian-integer fields: the energy before a transform is an exact integer',
                         'free-space phases are reduced modulo 2 exactly before evaluation']
